@@ -138,6 +138,9 @@ def run_cases(ctx: Ctx, n_cases: int, n_values: int, judge: Dict[str, bool]) -> 
         if case_id % 8 == 6:
             gen.add_empty_shapes(root, rng, ext_ok=cfg.extensible)
             res.count("cases_with_empty_message_shapes")
+        if case_id % 8 in (2, 7):
+            gen.add_alias_reach_shapes(root, rng)
+            res.count("cases_with_alias_reach_shapes")
         d = ctx.casedir(case_id)
         wit: Dict[str, Any] = {"case": case_id, "shard": ctx.shard}
         try:
